@@ -93,9 +93,20 @@ impl WatermarkGenerator {
             current_watermark: Watermark::new(0),
             strategy,
             max_timestamp: 0,
-            last_emission: SystemTime::now(),
+            last_emission: Self::processing_time_now(),
             _pending_events: VecDeque::new(),
         }
+    }
+
+    /// Processing-time clock read by the `Periodic` strategy
+    fn processing_time_now() -> SystemTime {
+        #[cfg(rre_verif)]
+        {
+            if let Some(t) = verif_clock::get() {
+                return UNIX_EPOCH + Duration::from_millis(t);
+            }
+        }
+        SystemTime::now()
     }
 
     /// Process an event and update watermark if needed
@@ -115,7 +126,7 @@ impl WatermarkGenerator {
     fn maybe_generate_watermark(&mut self) -> Option<Watermark> {
         let new_watermark = match &self.strategy {
             WatermarkStrategy::Periodic { interval } => {
-                let now = SystemTime::now();
+                let now = Self::processing_time_now();
                 let elapsed = now.duration_since(self.last_emission).ok()?;
 
                 if elapsed >= *interval {
@@ -169,6 +180,27 @@ impl WatermarkGenerator {
     /// Check if an event is late
     pub fn is_late(&self, event: &StreamEvent) -> bool {
         self.current_watermark.is_late(event.metadata.timestamp)
+    }
+}
+
+/// Verification hook (compiled only with `--cfg rre_verif`): a thread-local override of the
+/// processing-time clock read by `WatermarkGenerator` (`Periodic` strategy). With the cfg off
+/// this module does not exist and the generator reads the system clock exactly as before.
+#[cfg(rre_verif)]
+pub mod verif_clock {
+    use std::cell::Cell;
+
+    thread_local! {
+        static NOW_MS: Cell<Option<u64>> = const { Cell::new(None) };
+    }
+
+    /// `Some(t)`: the generator's clock reads `UNIX_EPOCH + t ms` on this thread; `None`: system clock.
+    pub fn set(now_ms: Option<u64>) {
+        NOW_MS.with(|c| c.set(now_ms));
+    }
+
+    pub fn get() -> Option<u64> {
+        NOW_MS.with(|c| c.get())
     }
 }
 
